@@ -218,13 +218,13 @@ Qed.
 Print Assumptions exclusive_maximum_dropped_refuted.
 
 (* REPAIRED (map-value-required-only-unvalidated): once recurseValidationCode keeps the
-   attribute context for user-type map keys / values (map_keeps_user_ctx, read from the
-   source), a map whose values are a user type with only a required string is validated:
-   the value lacking it is reported missing_field, exactly as the design says *)
+   attribute context for user-type map keys / values (map_ctx_mode, read from the source,
+   is no longer MapClearAll), a map whose values are a user type with only a required string
+   is validated: the value lacking it is reported missing_field, exactly as the design says *)
 Definition env_ro : env := mkEnv [(0, AObject [(0, true, APrim no_validation false PString)])] [].
 
 Theorem map_value_user_type_validated :
-  map_keeps_user_ctx = true ->
+  map_ctx_mode <> MapClearAll ->
   let E := env_ro in let c := ctx_server_request in
   let a := AObject [(0, false, AMap no_validation (APrim no_validation false PString) (AUser 0))] in
   let v := VObj [VMap [(VStr [107%N], VObj [VNull])]] in
@@ -233,42 +233,59 @@ Theorem map_value_user_type_validated :
   violations oracle_true oracle_true E 3 a v = [(EMissingField, [PField 0])].
 Proof.
   intro Hk. cbn zeta. split; [|split].
-  - unfold map_ctx. rewrite Hk. vm_compute. reflexivity.
-  - unfold validate. cbn [gen]. unfold map_ctx. rewrite Hk. vm_compute. reflexivity.
+  - unfold map_ctx. destruct map_ctx_mode; [congruence| |]; vm_compute; reflexivity.
+  - unfold validate. cbn [gen]. unfold map_ctx. destruct map_ctx_mode; [congruence| |]; vm_compute; reflexivity.
   - vm_compute. reflexivity.
 Qed.
 Print Assumptions map_value_user_type_validated.
 
-(* FINDING map-nested-collection-required-only-unvalidated (what remains of it): below a
-   map, arrays and maps are still validated with Pointer = false, so a user type with only a
-   required string met as ELEMENT OF AN ARRAY THAT IS A MAP VALUE gets no Validate call
-   (hasValidations is false there): the element lacking the attribute violates `required`,
-   the generated validation reports nothing *)
-Theorem map_nested_collection_required_only_refuted :
-  exists E fc c a v,
-    wf_env E = true /\ wf_att E a = true /\ wt E fc c true a v /\
-    violations oracle_true oracle_true E 3 a v = [(EMissingField, [PField 0])] /\
-    validate oracle_true oracle_true E fc 3 c true a v = Some [] /\
-    has_validations E (set_ptr c false) 0 = false /\ has_validations E c 0 = true.
+Definition att_map_of_arrays : att :=
+  AObject [(0, false, AMap no_validation (APrim no_validation false PString) (AArray no_validation (AUser 0)))].
+Definition val_map_of_arrays : value := VObj [VMap [(VStr [107%N], VArr [VObj [VNull]])]].
+
+Lemma wt_map_of_arrays : wt env_ro ctx_server_request ctx_server_request true att_map_of_arrays val_map_of_arrays.
 Proof.
-  exists env_ro, ctx_server_request, ctx_server_request,
-         (AObject [(0, false, AMap no_validation (APrim no_validation false PString) (AArray no_validation (AUser 0)))]),
-         (VObj [VMap [(VStr [107%N], VArr [VObj [VNull]])]]).
-  assert (Hm : forall c, map_ctx c (AArray no_validation (AUser 0)) = set_ptr c false)
-    by (intro c; unfold map_ctx; destruct map_keeps_user_ctx; reflexivity).
+  apply wt_obj. apply wtf_cons; [|apply wtf_nil].
+  apply wt_map. intros kv [<-|[]]. cbn [fst snd]. split; [now apply wt_prim|].
+  apply wt_arr. intros x [<-|[]]. apply wt_user; [discriminate|].
+  apply wt_obj. apply wtf_cons; [apply wt_null; reflexivity|apply wtf_nil].
+Qed.
+
+(* FINDING map-nested-collection-required-only-unvalidated (what remains while arrays and
+   maps found below a map are validated with Pointer = false, i.e. until map_ctx_mode is
+   MapClearPrimOnly): a user type with only a required string met as ELEMENT OF AN ARRAY
+   THAT IS A MAP VALUE gets no Validate call (hasValidations is false there): the element
+   lacking the attribute violates `required`, the generated validation reports nothing *)
+Theorem map_nested_collection_required_only_refuted :
+  map_ctx_mode <> MapClearPrimOnly ->
+    wf_env env_ro = true /\ wf_att env_ro att_map_of_arrays = true /\
+    wt env_ro ctx_server_request ctx_server_request true att_map_of_arrays val_map_of_arrays /\
+    violations oracle_true oracle_true env_ro 3 att_map_of_arrays val_map_of_arrays = [(EMissingField, [PField 0])] /\
+    validate oracle_true oracle_true env_ro ctx_server_request 3 ctx_server_request true att_map_of_arrays val_map_of_arrays = Some [] /\
+    has_validations env_ro (set_ptr ctx_server_request false) 0 = false /\ has_validations env_ro ctx_server_request 0 = true.
+Proof.
+  intro Hk.
   refine (conj _ (conj _ (conj _ (conj _ (conj _ (conj _ _)))))).
   - reflexivity.
   - reflexivity.
-  - apply wt_obj. apply wtf_cons; [|apply wtf_nil].
-    apply wt_map. intros kv [<-|[]]. cbn [fst snd]. split; [now apply wt_prim|].
-    apply wt_arr. intros x [<-|[]]. apply wt_user; [discriminate|].
-    apply wt_obj. apply wtf_cons; [apply wt_null; reflexivity|apply wtf_nil].
+  - exact wt_map_of_arrays.
   - vm_compute. reflexivity.
-  - unfold validate. cbn [gen]. rewrite Hm. unfold map_ctx. destruct map_keeps_user_ctx; vm_compute; reflexivity.
+  - unfold validate, att_map_of_arrays. cbn [gen]. unfold map_ctx. destruct map_ctx_mode; [| |congruence]; vm_compute; reflexivity.
   - vm_compute. reflexivity.
   - vm_compute. reflexivity.
 Qed.
 Print Assumptions map_nested_collection_required_only_refuted.
+
+(* REPAIRED (map-nested-collection-required-only-unvalidated): when only primitive map keys /
+   values lose Pointer, the same value is reported missing_field *)
+Theorem map_nested_collection_validated :
+  map_ctx_mode = MapClearPrimOnly ->
+  validate oracle_true oracle_true env_ro ctx_server_request 3 ctx_server_request true att_map_of_arrays val_map_of_arrays
+    = Some [(EMissingField, [PField 0])].
+Proof.
+  intro Hk. unfold validate, att_map_of_arrays. cbn [gen]. unfold map_ctx. rewrite Hk. vm_compute. reflexivity.
+Qed.
+Print Assumptions map_nested_collection_validated.
 
 (* non-vacuity: a recursive user type (id 0: {v: Int required Minimum(1); child: T;
    kids: [T]}) validated three levels deep; the generated code and the declarative reading
